@@ -42,7 +42,7 @@ func (w *hostileWitness) Update(ctx context.Context, logID string, oldSize uint6
 // or an error.
 func VerifFeedHostile() {
 	origin, key := rt.Str("origin"), rt.U64("logkey")
-	l := config.Log{ID: rt.Str("id"), Origin: origin, Verifier: &rt.Verifier{K: key, N: origin}, URL: rt.Str("url")}
+	l := config.Log{ID: rt.Str("id"), Origin: origin, Verifier: &rt.Verifier{K: key, N: rt.UFStr("keyName", key)}, URL: rt.Str("url")}
 	w := &hostileWitness{has: rt.Bool("w.has"), latest: rt.Bytes("latestRaw")}
 	rt.ResetEvents()
 	err := FeedLog(&rt.Ctx{}, l, w, &http.Client{}, 0)
